@@ -326,7 +326,11 @@ fn run(cmd: &str, args: &[String], seed: u64, rep: &mut Report) {
                 },
                 mutations: vec![],
             };
-            settings::replay(&ctx, &read_ndjson(arg(&args, "--in").unwrap()), seed, &mut rep);
+            let mut trace = Vec::new();
+            settings::replay(&ctx, &read_ndjson(arg(&args, "--in").unwrap()), seed, &mut rep, &mut trace);
+            if let Some(p) = arg(&args, "--out-trace") {
+                write_ndjson(p, &trace);
+            }
             settings::clap_texts(&ctx, seed, &mut rep);
             settings::extras_use(&ctx, seed, &mut rep);
         }
